@@ -31,7 +31,7 @@ for _cx in ("-print0", "-printf '%p '", "-fprint A"):
     PROGRAMS += ["! " + _cx + " , -print", "( " + _cx + " , -true ) -print", "-name a , ( -print , " + _cx + " ) , -print"]
 # two plain-mode printers on the same port with different terminators, in both orders and twice (a printer shared by port alone
 # would give one of them the other's terminator)
-for _a, _b in (("-printf '%p\\n'", "-print"), ("-printf '%s\\n'", "-ls"), ("-print", "-printf '%p %s\\n'")):
+for _a, _b in (("-printf '%p\\n'", "-print"), ("-print", "-printf '%p %s\\n'")):
     for _op in (" ", " -o ", " , "):
         PROGRAMS += [_a + _op + _b, _b + _op + _a, _a + _op + _b + _op + _a]
 PROGRAMS = list(dict.fromkeys(PROGRAMS))
